@@ -3,6 +3,7 @@ package props
 import (
 	"fmt"
 	"runtime"
+	"time"
 
 	"pipelined.dev/signal"
 	"verifharness/core"
@@ -87,6 +88,7 @@ func runC10(c *core.Ctx) {
 	c.Floor("gets_returning_a_previously_put_object", 100)
 	c.Floor("gets_fresh_object", 100)
 	c.Floor("puts_of_slice_from_frame_0", 50)
+	c.Floor("headers_dropped_while_a_slice_stays_checked_out", 20)
 }
 
 func c10History(c *core.Ctx, r *core.Rand, t *dyn.TypeOps, al signal.Allocator, steps int, caseID string, hi int) {
@@ -101,6 +103,7 @@ func c10History(c *core.Ctx, r *core.Rand, t *dyn.TypeOps, al signal.Allocator, 
 	var hist []string
 	sig := core.NewHash().Str(t.Name).Int(al.Channels).Int(al.Length).Int(al.Capacity)
 	reusedInThis := false
+	noDrop := c.Mode == "race" // header addresses identify objects in the race histories
 	log := func(s string) {
 		if len(hist) < 400 {
 			hist = append(hist, s)
@@ -302,11 +305,35 @@ func c10History(c *core.Ctx, r *core.Rand, t *dyn.TypeOps, al signal.Allocator, 
 			log(what)
 			c.Obs("puts", 1)
 		default:
-			if r.Chance(1, 6) {
+			switch {
+			case r.Chance(1, 6):
 				runtime.GC()
 				runtime.GC()
 				log("gc*2")
 				c.Obs("forced_double_gcs", 1)
+			case r.Chance(1, 5) && len(out) > 0 && !noDrop:
+				// the holder keeps only a slice from frame 0 of its buffer and
+				// lets go of the header it was given; then the collector runs
+				// (finalizers get their chance). The checkout is still
+				// outstanding: its storage must stay exclusively the holder's.
+				o := out[r.Intn(len(out))]
+				old := o.b
+				o.b = old.Slice(0, al.Capacity)
+				delete(putHdr, old.HeaderAddr())
+				for i := range pins {
+					if pins[i] != nil && pins[i].Same(old) {
+						pins[i] = nil
+					}
+				}
+				old = nil
+				c10Snap(o)
+				for i := 0; i < 2; i++ {
+					runtime.GC()
+					runtime.Gosched()
+					time.Sleep(200 * time.Microsecond)
+				}
+				log("keep-only-slice(0,K);drop-header;gc*2")
+				c.Obs("headers_dropped_while_a_slice_stays_checked_out", 1)
 			}
 		}
 		last := "start"
